@@ -63,7 +63,8 @@ Qed.
 
 Lemma write_cache_ok : forall w w' u, write_cache w = (w', inl u) ->
   exists f, lookup (w_fs w') (w_cachefile w) = Some (NFile f) /\ f_json f = cache_to_json (w_new w) /\
-            w_new w' = w_new w /\ w_old w' = w_old w /\ w_cachefile w' = w_cachefile w.
+            w_new w' = w_new w /\ w_old w' = w_old w /\ w_cachefile w' = w_cachefile w /\
+            exists j, cache_to_json (w_new w) = Some j.
 Proof.
   intros w w' u H. unfold write_cache in H. unfold bind at 1, get in H.
   destruct (cache_to_json (w_new w)) as [j|] eqn:Ej; [|discriminate H]. cbv zeta in H.
@@ -74,7 +75,8 @@ Proof.
   destruct (effect_ok _ _ _ _ _ _ H) as (fs2 & F2 & G2 & N2 & O2 & C2 & _ & _).
   cbn [w_fs w_new w_old w_cachefile set_clock] in *.
   destruct (write_file_frame _ _ _ _ _ _ _ F2) as [(f & L1 & _ & _ & L2) _].
-  exists f. rewrite G2. split; [exact L1|]. split; [exact L2|]. repeat split; congruence.
+  exists f. rewrite G2. split; [exact L1|]. split; [exact L2|].
+  split; [congruence|]. split; [congruence|]. split; [congruence|]. exists j. reflexivity.
 Qed.
 
 Lemma commit_first : forall err nm svers w, w_old w = empty_cache nm svers ->
@@ -100,7 +102,8 @@ Theorem first_build_end : forall cf nm vers svers root w w' v,
     make_dirs (dirname cf) (start_world w cf (empty_cache nm svers) nm svers) = (w1, inl ccd) /\
     run root None [] (set_log (LInvoke "<root>" None PNone PNone :: w_log w1) w1) = (w2, (inl v, l)) /\
     w_new w' = new_cache_of ccd w2 /\
-    exists f, lookup (w_fs w') cf = Some (NFile f) /\ f_json f = cache_to_json (w_new w').
+    (exists f, lookup (w_fs w') cf = Some (NFile f) /\ f_json f = cache_to_json (w_new w')) /\
+    exists j, cache_to_json (w_new w') = Some j.
 Proof.
   intros cf nm vers svers root w w' v Hs Hl H. unfold run_build in H.
   destruct (m_build cf nm vers (fun w0 => run root None [] w0) w) as [wz rz] eqn:E.
@@ -136,14 +139,15 @@ Proof.
       rewrite A1, A2, A3, Ewa. repeat split; reflexivity.
     - unfold bind, ret in E3. inversion E3; subst w3. rewrite Ewa. repeat split; reflexivity. }
   destruct K3 as (N3 & O3 & C3).
-  destruct (write_cache_ok _ _ _ E4) as (f & L4 & J4 & N4 & O4 & C4).
+  destruct (write_cache_ok _ _ _ E4) as (f & L4 & J4 & N4 & O4 & C4 & j & Ej).
   rewrite (commit_first err nm svers w4) in E5 by congruence.
   pose proof (remove_empty_dirs_new _ _ _ _ E5) as (N5 & _ & _).
   split; [reflexivity|]. split; [exact E2|]. cbn [end_build w_new w_fs set_lost set_backups].
-  split; [congruence|].
-  exists f. split.
-  - apply (remove_empty_dirs_fk cf f err _ _ _ E5). rewrite C3, Hc2 in L4. exact L4.
-  - rewrite N5, N4. exact J4.
+  split; [congruence|]. split.
+  - exists f. split.
+    + apply (remove_empty_dirs_fk cf f err _ _ _ E5). rewrite C3, Hc2 in L4. exact L4.
+    + rewrite N5, N4. exact J4.
+  - exists j. rewrite N5, N4. exact Ej.
 Qed.
 
 Print Assumptions first_build_end.
